@@ -191,6 +191,338 @@ theorem value_eq (f : Nat) :
               | _ => simp [objectItems, pFields, R.toOpt]
         | _ => simp [objectItems, pFields, R.toOpt]
 
+/-! ### arguments, directives, input values, fields -/
+
+theorem iso_block_flags : Quirks.iso.blockKeepEscapes = true ∧ Quirks.iso.blockRustLines = true := ⟨rfl, rfl⟩
+
+theorem blockValue_iso (raw : Str) : blockValue Quirks.iso raw = cleanBlockString raw := by
+  simp [blockValue, cleanBlockString, iso_block_flags.1, iso_block_flags.2]
+
+/-- `parse_optional_description` reads the Description? of the grammar (strings verbatim, block
+strings through `clean_block_string_literal`) -/
+theorem desc_eq (ts : List Tok) : parseOptionalDescription ts = pDesc Quirks.iso ts := by
+  unfold parseOptionalDescription pDesc
+  split <;> simp [strValue_iso, blockValue_iso]
+
+theorem toOpt_bind {α β : Type} (x : R α) (k : α → List Tok → R β) :
+    (x.bind k).toOpt = match x.toOpt with
+      | some (a, r) => (k a r).toOpt
+      | none => none := by
+  cases x <;> simp [R.bind, R.toOpt]
+
+/-- one `name: value` pair followed by the rest of the argument loop -/
+theorem pair_then_more (f : Nat) (ihm : ∀ ts, (parseMoreArguments false f ts).toOpt = pFields Quirks.iso true .rparen f ts)
+    (r : List Tok) :
+    ((parseNameValuePair false f r).bind fun nv r1 =>
+      (parseMoreArguments false f r1).bind fun fs r2 => R.ok (FieldList.cons nv.1 nv.2 fs) r2).toOpt =
+    match r with
+    | .name n :: .punct .colon :: r' =>
+      match pValue Quirks.iso true f r' with
+      | some (v, r1) =>
+        match pFields Quirks.iso true .rparen f r1 with
+        | some (fs, r2) => some (.cons n v fs, r2)
+        | none => none
+      | none => none
+    | _ => none := by
+  rcases r with _ | ⟨t, r⟩
+  · simp [parseNameValuePair, tokName, R.bind, R.toOpt]
+  · cases t with
+    | name n =>
+      rcases r with _ | ⟨t2, r2⟩
+      · simp [parseNameValuePair, tokName, tokPunct, R.bind, R.toOpt]
+      · by_cases hc : t2 = .punct .colon
+        · subst hc
+          simp only [parseNameValuePair, tokName, tokPunct, R.bind, beq_self_eq_true, if_true]
+          rw [← (value_eq f).1 r2]
+          cases parseConstantValue false false f r2 <;> simp [R.toOpt]
+          rename_i v r'
+          rw [← ihm r']
+          cases parseMoreArguments false f r' <;> simp [R.toOpt]
+        · cases t2 with
+          | punct p =>
+            cases p <;> first | (exfalso; exact hc rfl) | simp [parseNameValuePair, tokName, tokPunct, R.bind, R.toOpt]
+          | _ => simp [parseNameValuePair, tokName, tokPunct, R.bind, R.toOpt]
+    | _ => simp [parseNameValuePair, tokName, R.bind, R.toOpt]
+
+theorem moreArguments_eq (f : Nat) : ∀ ts, (parseMoreArguments false f ts).toOpt = pFields Quirks.iso true .rparen f ts := by
+  induction f with
+  | zero => intro ts; simp [parseMoreArguments, pFields, R.toOpt]
+  | succ f ih =>
+    intro ts
+    rcases tokPunct_cases .rparen ts with ⟨r, h1, h2⟩ | ⟨h1, h2⟩
+    · subst h1
+      simp [parseMoreArguments, h2, pFields, R.toOpt]
+    · simp only [parseMoreArguments, h2]
+      rw [pair_then_more f ih ts]
+      rcases ts with _ | ⟨t, r⟩
+      · simp [pFields]
+      · cases t with
+        | punct p =>
+          have : p ≠ .rparen := fun h => h1 r (by rw [h])
+          cases p <;> first | (exfalso; exact this rfl) | simp [pFields]
+        | name n =>
+          rcases r with _ | ⟨t2, r2⟩
+          · simp [pFields]
+          · cases t2 with
+            | punct p => cases p <;> first | (simp [pFields]; done) | (simp only [pFields]; rfl)
+            | _ => simp [pFields]
+        | _ => simp [pFields]
+
+/-- `parse_optional_constant_arguments` reads Arguments[Const]? -/
+theorem args_eq (f : Nat) (ts : List Tok) :
+    (parseOptionalConstantArguments false f ts).toOpt = pArgs Quirks.iso true f ts := by
+  rcases tokPunct_cases .lparen ts with ⟨r, h1, h2⟩ | ⟨h1, h2⟩
+  · subst h1
+    simp only [parseOptionalConstantArguments, h2, pArgs]
+    cases f with
+    | zero => simp [pFields, R.toOpt]
+    | succ f =>
+      simp only
+      rw [pair_then_more f (moreArguments_eq f) r]
+      rcases r with _ | ⟨t, r⟩
+      · simp [pFields]
+      · cases t with
+        | punct p => cases p <;> simp [pFields]
+        | name n =>
+          rcases r with _ | ⟨t2, r2⟩
+          · simp [pFields]
+          · cases t2 with
+            | punct p =>
+              cases p <;> simp [pFields]
+              -- colon
+              cases pValue Quirks.iso true f r2 <;> simp
+              rename_i x
+              cases pFields Quirks.iso true .rparen f x.2 <;> simp
+            | _ => simp [pFields]
+        | _ => simp [pFields]
+  · simp only [parseOptionalConstantArguments, h2, R.toOpt]
+    unfold pArgs
+    split
+    · rename_i r; exact absurd rfl (h1 r)
+    · rfl
+
+/-- `parse_constant_directives` reads Directives[Const]? -/
+theorem dirs_eq (f : Nat) : ∀ ts, (parseConstantDirectives false f ts).toOpt = pDirs Quirks.iso true f ts := by
+  induction f with
+  | zero => intro ts; simp [parseConstantDirectives, pDirs, R.toOpt]
+  | succ f ih =>
+    intro ts
+    rcases tokPunct_cases .at ts with ⟨r, h1, h2⟩ | ⟨h1, h2⟩
+    · subst h1
+      simp only [parseConstantDirectives, h2]
+      rcases r with _ | ⟨t, r⟩
+      · simp [tokName, R.bind, R.toOpt, pDirs]
+      · cases t with
+        | name n =>
+          simp only [tokName, R.bind, pDirs]
+          rw [← args_eq f r]
+          cases parseOptionalConstantArguments false f r <;> simp [R.toOpt]
+          rename_i args r1
+          rw [← ih r1]
+          cases parseConstantDirectives false f r1 <;> simp [R.toOpt]
+        | _ => simp [tokName, R.bind, R.toOpt, pDirs]
+    · simp only [parseConstantDirectives, h2, R.toOpt]
+      unfold pDirs
+      split
+      · rename_i n r; exact absurd rfl (h1 _)
+      · rename_i r _; exact absurd rfl (h1 _)
+      · rfl
+
+theorem default_eq (f : Nat) (ts : List Tok) :
+    (parseOptionalDefault false f ts).toOpt = pDefault Quirks.iso f ts := by
+  rcases tokPunct_cases .eq ts with ⟨r, h1, h2⟩ | ⟨h1, h2⟩
+  · subst h1
+    simp only [parseOptionalDefault, h2, pDefault]
+    rw [← (value_eq f).1 r]
+    cases parseConstantValue false false f r <;> simp [R.bind, R.toOpt]
+  · simp only [parseOptionalDefault, h2, R.toOpt]
+    unfold pDefault
+    split
+    · rename_i r; exact absurd rfl (h1 r)
+    · rfl
+
+/-- `parse_argument_definition` reads InputValueDefinition -/
+theorem inputVal_eq (f : Nat) (ts : List Tok) :
+    (parseArgumentDefinition false f ts).toOpt = pInputVal Quirks.iso f ts := by
+  simp only [parseArgumentDefinition, pInputVal, desc_eq]
+  rcases (pDesc Quirks.iso ts).2 with _ | ⟨t, r⟩
+  · simp [tokName, R.bind, R.toOpt]
+  · cases t with
+    | name n =>
+      rcases r with _ | ⟨t2, r2⟩
+      · simp [tokName, tokPunct, R.bind, R.toOpt]
+      · by_cases hc : t2 = .punct .colon
+        · subst hc
+          simp only [tokName, tokPunct, R.bind, beq_self_eq_true, if_true]
+          rw [← parseType_eq f r2]
+          cases parseTypeAnnotation f r2 <;> simp [R.toOpt]
+          rename_i ty r3
+          rw [← default_eq f r3]
+          cases parseOptionalDefault false f r3 <;> simp [R.toOpt]
+          rename_i dv r4
+          rw [← dirs_eq f r4]
+          cases parseConstantDirectives false f r4 <;> simp [R.toOpt]
+        · cases t2 with
+          | punct p => cases p <;> first | (exfalso; exact hc rfl) | simp [tokName, tokPunct, R.bind, R.toOpt]
+          | _ => simp [tokName, tokPunct, R.bind, R.toOpt]
+    | _ => simp [tokName, R.bind, R.toOpt]
+
+/-- a token list that does not start with the punctuator `p` is not seen as `p` by `pInputVals` -/
+theorem pDesc_snd_punct (p : Punct) (r : List Tok) : pDesc Quirks.iso (.punct p :: r) = (none, .punct p :: r) := rfl
+
+theorem pInputVals_step (close : Punct) (f : Nat) (ts : List Tok) (h1 : ∀ r, ts ≠ .punct close :: r) :
+    pInputVals Quirks.iso close (f + 1) ts =
+      match pInputVal Quirks.iso f ts with
+      | some (v, r1) =>
+        match pInputVals Quirks.iso close f r1 with
+        | some (vs, r2) => some (v :: vs, r2)
+        | none => none
+      | none => none := by
+  rcases ts with _ | ⟨t, r⟩
+  · rfl
+  · cases t with
+    | punct p =>
+      have hp : p ≠ close := fun h => h1 r (by rw [h])
+      simp [pInputVals, hp, pInputVal, pDesc_snd_punct]
+    | _ => rfl
+
+theorem moreArgumentDefinitions_eq (close : Punct) (f : Nat) :
+    ∀ ts, (parseMoreArgumentDefinitions false close f ts).toOpt = pInputVals Quirks.iso close f ts := by
+  induction f with
+  | zero => intro ts; simp [parseMoreArgumentDefinitions, pInputVals, R.toOpt]
+  | succ f ih =>
+    intro ts
+    rcases tokPunct_cases close ts with ⟨r, h1, h2⟩ | ⟨h1, h2⟩
+    · subst h1
+      simp [parseMoreArgumentDefinitions, h2, pInputVals, R.toOpt]
+    · simp only [parseMoreArgumentDefinitions, h2]
+      rw [pInputVals_step close f ts h1, toOpt_bind, inputVal_eq]
+      cases pInputVal Quirks.iso f ts <;> simp
+      rename_i x
+      rw [toOpt_bind, ih]
+      cases pInputVals Quirks.iso close f x.2 <;> simp [R.toOpt]
+
+/-- `parse_optional_enclosed_items(open, close, parse_argument_definition)` reads
+(open InputValueDefinition+ close)? -/
+theorem optionalArgumentDefinitions_eq (opn close : Punct) (f : Nat) (ts : List Tok) :
+    (parseOptionalArgumentDefinitions false opn close f ts).toOpt = pInputValsOpt Quirks.iso opn close f ts := by
+  rcases tokPunct_cases opn ts with ⟨r, h1, h2⟩ | ⟨h1, h2⟩
+  · subst h1
+    simp only [parseOptionalArgumentDefinitions, h2, pInputValsOpt, beq_self_eq_true, if_true]
+    cases f with
+    | zero => simp [pInputVals, R.toOpt]
+    | succ f =>
+      simp only
+      rw [toOpt_bind, inputVal_eq]
+      rcases r with _ | ⟨t, r'⟩
+      · simp [pInputVals, pInputVal, pDesc]
+      · by_cases hcl : t = .punct close
+        · subst hcl
+          simp [pInputVals, pInputVal, pDesc_snd_punct]
+        · have unfoldRef := pInputVals_step close f (t :: r') (by intro r hr; simp at hr; exact hcl hr.1)
+          rw [unfoldRef]
+          cases pInputVal Quirks.iso f (t :: r') <;> simp
+          rename_i x
+          rw [toOpt_bind, moreArgumentDefinitions_eq]
+          cases pInputVals Quirks.iso close f x.2 <;> simp [R.toOpt]
+  · simp only [parseOptionalArgumentDefinitions, h2, R.toOpt]
+    unfold pInputValsOpt
+    split
+    · rename_i p r
+      split
+      · rename_i hp
+        have : p = opn := by simpa using hp
+        subst this
+        exact absurd rfl (h1 r)
+      · rfl
+    · rfl
+
+/-- `parse_field` reads FieldDefinition -/
+theorem field_eq (f : Nat) (ts : List Tok) : (parseField false f ts).toOpt = pFieldDef Quirks.iso f ts := by
+  simp only [parseField, pFieldDef, desc_eq, iso_flags.2.2.2.1, Bool.false_eq_true, if_false]
+  rcases (pDesc Quirks.iso ts).2 with _ | ⟨t, r⟩
+  · simp [tokName, R.bind, R.toOpt]
+  · cases t with
+    | name n =>
+      simp only [tokName, R.bind]
+      rw [← optionalArgumentDefinitions_eq .lparen .rparen f r]
+      cases parseOptionalArgumentDefinitions false .lparen .rparen f r <;> simp [R.toOpt]
+      rename_i args r2
+      rcases tokPunct_cases .colon r2 with ⟨r3, h1, h2⟩ | ⟨h1, h2⟩
+      · subst h1
+        simp only [h2]
+        rw [← parseType_eq f r3]
+        cases parseTypeAnnotation f r3 <;> simp [R.toOpt]
+        rename_i ty r4
+        rw [← dirs_eq f r4]
+        cases parseConstantDirectives false f r4 <;> simp [R.toOpt]
+      · simp only [h2]
+        split
+        · rename_i heq
+          simp at heq
+          exact absurd heq.2 (h1 _)
+        · rfl
+    | _ => simp [tokName, R.bind, R.toOpt]
+
+theorem pFieldDefs_step (f : Nat) (ts : List Tok) (h1 : ∀ r, ts ≠ .punct .rbrace :: r) :
+    pFieldDefs Quirks.iso (f + 1) ts =
+      match pFieldDef Quirks.iso f ts with
+      | some (v, r1) =>
+        match pFieldDefs Quirks.iso f r1 with
+        | some (vs, r2) => some (v :: vs, r2)
+        | none => none
+      | none => none := by
+  rcases ts with _ | ⟨t, r⟩
+  · rfl
+  · cases t with
+    | punct p =>
+      have hp : p ≠ .rbrace := fun h => h1 r (by rw [h])
+      cases p <;> first | (exfalso; exact hp rfl) | rfl
+    | _ => rfl
+
+theorem moreFields_eq (f : Nat) : ∀ ts, (parseMoreFields false f ts).toOpt = pFieldDefs Quirks.iso f ts := by
+  induction f with
+  | zero => intro ts; simp [parseMoreFields, pFieldDefs, R.toOpt]
+  | succ f ih =>
+    intro ts
+    rcases tokPunct_cases .rbrace ts with ⟨r, h1, h2⟩ | ⟨h1, h2⟩
+    · subst h1
+      simp [parseMoreFields, h2, pFieldDefs, R.toOpt]
+    · have unfoldRef := pFieldDefs_step f ts h1
+      simp only [parseMoreFields, h2]
+      rw [unfoldRef, toOpt_bind, field_eq]
+      cases pFieldDef Quirks.iso f ts <;> simp
+      rename_i x
+      rw [toOpt_bind, ih]
+      cases pFieldDefs Quirks.iso f x.2 <;> simp [R.toOpt]
+
+/-- `parse_optional_fields` reads FieldsDefinition? -/
+theorem optionalFields_eq (f : Nat) (ts : List Tok) :
+    (parseOptionalFields false f ts).toOpt = pFieldDefsOpt Quirks.iso f ts := by
+  rcases tokPunct_cases .lbrace ts with ⟨r, h1, h2⟩ | ⟨h1, h2⟩
+  · subst h1
+    simp only [parseOptionalFields, h2, pFieldDefsOpt]
+    cases f with
+    | zero => simp [pFieldDefs, R.toOpt]
+    | succ f =>
+      simp only
+      rw [toOpt_bind, field_eq]
+      by_cases hcl : ∃ r', r = .punct .rbrace :: r'
+      · obtain ⟨r', hr⟩ := hcl
+        subst hr
+        simp [pFieldDefs, pFieldDef, pDesc_snd_punct, iso_flags.2.2.2.1]
+      · have unfoldRef := pFieldDefs_step f r (by intro r' hr; exact hcl ⟨r', hr⟩)
+        rw [unfoldRef]
+        cases pFieldDef Quirks.iso f r <;> simp
+        rename_i x
+        rw [toOpt_bind, moreFields_eq]
+        cases pFieldDefs Quirks.iso f x.2 <;> simp [R.toOpt]
+  · simp only [parseOptionalFields, h2, R.toOpt]
+    unfold pFieldDefsOpt
+    split
+    · rename_i r; exact absurd rfl (h1 r)
+    · rfl
+
 /-! ### totality: no Rust panic site is reachable -/
 
 def NoPanic {α : Type} (x : R α) : Prop := x ≠ .panic
